@@ -1,2 +1,3 @@
 import Drv.Common
 import Drv.Args
+import Drv.Store
